@@ -198,6 +198,83 @@ func typedTarget2(v interface{}) reflect.Type {
 	return tIface
 }
 
+// c18KeyPaths lists every dictionary key present in generic data (null-valued ones included).
+func c18KeyPaths(v interface{}) string {
+	var out []string
+	var walk func(v interface{}, p string)
+	walk = func(v interface{}, p string) {
+		switch x := v.(type) {
+		case map[string]interface{}:
+			for k, e := range x {
+				out = append(out, p+"/"+k)
+				walk(e, p+"/"+k)
+			}
+		case []interface{}:
+			for i, e := range x {
+				walk(e, fmt.Sprintf("%s/#%d", p, i))
+			}
+		}
+	}
+	walk(v, "")
+	sort.Strings(out)
+	return strings.Join(out, " ")
+}
+
+// c18Degenerate: inputs without any setting. The *WithFile loader must behave like its in-memory
+// counterpart: both fail, or both give configs that unpack to the same data and keep a target's
+// defaults.
+func c18Degenerate() *core.Space {
+	inputs := []string{"", " ", "\n", "\n\n", "# only a comment\n", "# a\n# b\n", "{}", "[]", "null", "~", "---\n", "---\n...\n", "// c\n{}", "{\n}\n", "a:", "a: ~\n"}
+	radices := []int{len(inputs), len(c18FrontEnds)}
+	return &core.Space{
+		Name: "inputs-without-settings",
+		Size: product(radices...),
+		Text: func(i int) string {
+			d := mixedRadix(i, radices...)
+			return fmt.Sprintf("%q through %s.NewConfig and %s.NewConfigWithFile", inputs[d[0]], c18FrontEnds[d[1]].Name, c18FrontEnds[d[1]].Name)
+		},
+		Exec: func(i int) core.Result {
+			d := mixedRadix(i, radices...)
+			in, fe := inputs[d[0]], c18FrontEnds[d[1]]
+			var res core.Result
+			pi := core.Guard(func() {
+				if c18Tmp == "" {
+					c18Tmp, _ = os.MkdirTemp(core.RunDir(), "c18-")
+				}
+				fname := filepath.Join(c18Tmp, "degenerate."+fe.Name)
+				os.WriteFile(fname, []byte(in), 0644)
+				mcfg, merr := fe.New([]byte(in))
+				fcfg, ferr := fe.WithFile(fname)
+				if (merr == nil) != (ferr == nil) {
+					res = core.Fail("degenerate", "FILE-LOADER-DIFFERS "+fe.Name, fmt.Sprintf("NewConfig: %v; NewConfigWithFile: %v", merr, ferr))
+					return
+				}
+				if merr != nil {
+					res.Outcome = "rejected"
+					res.Nontrivial = true
+					return
+				}
+				type tgt struct {
+					A    interface{}
+					Keep string
+				}
+				mt, ft := tgt{Keep: "dflt"}, tgt{Keep: "dflt"}
+				e1, e2 := mcfg.Unpack(&mt), fcfg.Unpack(&ft)
+				if (e1 == nil) != (e2 == nil) || fmt.Sprintf("%#v", mt) != fmt.Sprintf("%#v", ft) {
+					res = core.Fail("degenerate", "FILE-DATA-DIFFERS "+fe.Name, fmt.Sprintf("NewConfig: %#v (%v); NewConfigWithFile: %#v (%v)", mt, e1, ft, e2))
+					return
+				}
+				res.Outcome = "loaded"
+				res.Nontrivial = true
+			})
+			if pi != nil {
+				return apiPanic("c18", pi)
+			}
+			return res
+		},
+	}
+}
+
 // typedText renders a typed result with numbers by value (interface{} elements keep the
 // decoder's number type).
 func typedText(v reflect.Value) string {
@@ -266,7 +343,7 @@ func c18Space(ts []*tree.Node, offsets []int) *core.Space {
 			var res core.Result
 			pi := core.Guard(func() {
 				var rawCanon, cfgCanon [3]string
-				var typed, typed2 [3]string
+				var typed, typed2, keySets [3]string
 				valid := true
 				for k, fe := range c18FrontEnds {
 					raw, err := fe.Decode(b)
@@ -295,6 +372,7 @@ func c18Space(ts []*tree.Node, offsets []int) *core.Space {
 							return
 						}
 						got = tree.CanonGoOpt(m, true)
+						keySets[k] = c18KeyPaths(m)
 					}
 					cfgCanon[k] = got
 					if normC18(got) != normC18(rawCanon[k]) {
@@ -370,6 +448,11 @@ func c18Space(ts []*tree.Node, offsets []int) *core.Space {
 				if valid && rawCanon[0] == rawCanon[1] && rawCanon[1] == rawCanon[2] {
 					if cfgCanon[0] != cfgCanon[1] || cfgCanon[1] != cfgCanon[2] {
 						res = core.Fail("cross", "FRONTENDS-DISAGREE "+os_.Name, fmt.Sprintf("yaml %s json %s hjson %s", cfgCanon[0], cfgCanon[1], cfgCanon[2]))
+						return
+					}
+					// a setting whose value is null is a setting in every syntax: same keys everywhere
+					if keySets[0] != keySets[1] || keySets[1] != keySets[2] {
+						res = core.Fail("cross", "FRONTENDS-DISAGREE-ON-KEYS "+os_.Name, fmt.Sprintf("keys present in the unpacked data: yaml %s json %s hjson %s", keySets[0], keySets[1], keySets[2]))
 						return
 					}
 					if typed[0] != typed[1] || typed[1] != typed[2] {
@@ -533,16 +616,16 @@ func init() {
 	core.Register(&core.Check{
 		ID:    "C18",
 		Level: "exploration",
-		Rule:  "JSON-expressible documents (every dict/list shape of depth<=2 over keys {a,b} with lists<=2, leaves assigned cyclically from 31 values: null, booleans, integers incl. 2^53+1 and 2^64-1, floats, and strings that look like other YAML/HJSON/ucfg syntax - '1', 'true', 'null', 'a: b', '#x', '${x}', 'a.b', 'x,y', '[1]', quotes, leading blank, multi-line, non-ASCII) serialised with encoding/json and loaded by yaml.NewConfig, json.NewConfig and hjson.NewConfig under {no options, PathSep, PathSep+VarExp}; per front-end the unpacked data must equal what the front-end's own decoder yields; where the three decoders agree the three configs must unpack to the same generic and typed data (two StructOf mirrors: numbers as uint64/float64, and numbers as time.Duration); NewConfigWithFile must give the same data and errors must mention source:'<file>'; 8 documents with dotted keys of up to 4 segments (implicit sections, also inside lists and nested objects) loaded from files with PathSep: reading any implicit section as an int fails naming the section and the file, with the same text as the in-memory loader otherwise; non-trivial = the document is valid and decoded identically by all three",
+		Rule:  "JSON-expressible documents (every dict/list shape of depth<=2 over keys {a,b} with lists<=2, leaves assigned cyclically from 31 values: null, booleans, integers incl. 2^53+1 and 2^64-1, floats, and strings that look like other YAML/HJSON/ucfg syntax - '1', 'true', 'null', 'a: b', '#x', '${x}', 'a.b', 'x,y', '[1]', quotes, leading blank, multi-line, non-ASCII) serialised with encoding/json and loaded by yaml.NewConfig, json.NewConfig and hjson.NewConfig under {no options, PathSep, PathSep+VarExp}; per front-end the unpacked data must equal what the front-end's own decoder yields; where the three decoders agree the three configs must unpack to the same generic data (including which keys are present with a null value) and typed data (two StructOf mirrors: numbers as uint64/float64, and numbers as time.Duration); NewConfigWithFile must give the same data and errors must mention source:'<file>'; 8 documents with dotted keys of up to 4 segments (implicit sections, also inside lists and nested objects) loaded from files with PathSep: reading any implicit section as an int fails naming the section and the file, with the same text as the in-memory loader otherwise; 16 inputs without settings (empty, blank, comments only, {}, [], null, document markers) through NewConfig and NewConfigWithFile of each front-end: same verdict, same data, target defaults kept; non-trivial = the document is valid and decoded identically by all three",
 		Assumptions: []string{
 			"third-party decoders are trusted and compared with themselves (their quirks are not attributed to ucfg); documents on which they disagree are only checked per front-end",
 			"documents containing ${ are skipped under VarExp (the reference would be unresolvable)",
 		},
 		Spaces: func(tier string) []*core.Space {
 			if tier == "thorough" {
-				return []*core.Space{c18Dotted(), c18Space(cachedEnum(2, kAB, 2), []int{0, 5, 11, 17, 23})}
+				return []*core.Space{c18Dotted(), c18Degenerate(), c18Space(cachedEnum(2, kAB, 2), []int{0, 5, 11, 17, 23})}
 			}
-			return []*core.Space{c18Dotted(), c18Space(cachedEnum(2, kAB, 2), []int{0})}
+			return []*core.Space{c18Dotted(), c18Degenerate(), c18Space(cachedEnum(2, kAB, 2), []int{0})}
 		},
 	})
 }
